@@ -111,6 +111,10 @@ func features() []feature {
 	add("function-0-params", func(d *schemaDoc) { d.fn("ping0#ID = Point;") })
 	add("function-5-params", func(d *schemaDoc) { d.fn("five#ID a:int b:int c:string d:long e:Point = Point;") })
 	add("function-6-params", func(d *schemaDoc) { d.fn("six#ID a:int b:int c:string d:long e:Point f:Shape = Point;") })
+	add("function-vector-then-scalar", func(d *schemaDoc) { d.fn("vs#ID ids:Vector<int> limit:int = Point;") })
+	add("function-scalar-then-vector", func(d *schemaDoc) { d.fn("sv#ID limit:long ids:Vector<long> name:string = Point;") })
+	add("function-vector-vector", func(d *schemaDoc) { d.fn("vv#ID a:Vector<string> b:Vector<string> c:string = Point;") })
+	add("function-struct-then-vector-of-it", func(d *schemaDoc) { d.fn("pv#ID p:Point ps:Vector<Point> s:Shape ss:Vector<Shape> = Point;") })
 	add("function-same-typed-params", func(d *schemaDoc) { d.fn("swap#ID first:string second:string third:int fourth:int = Point;") })
 	for _, n := range []string{"c", "params", "err", "resp", "type", "range", "default", "responseData", "ok", "errors", "reflect", "func", "tl"} {
 		n := n
